@@ -2,12 +2,12 @@ SPECIFICATION Spec
 CONSTANTS
   Sessions = {"s1", "s2"}
   Roles <- RolesPair
-  KnowsCookie = TRUE
+  KnowsCookie = FALSE
   CheckReplies = {"Ok"}
   Acc = FALSE
-  Reflection = FALSE
+  Reflection = TRUE
   CtlKinds = {"PgJoin", "Terminate", "Ping"}
   PidClasses = {"adv", "nonrem"}
 INVARIANTS
-  NoCookieNoEffect CloseAbsorbing EffectsOnlyAfterHandshake DeliverOnlyAuthorized OwnFaultOnly DeadIsClean
+  NoCookieNoAuth NoCookieNoEffect CloseAbsorbing EffectsOnlyAfterHandshake DeliverOnlyAuthorized OwnFaultOnly DeadIsClean
 CHECK_DEADLOCK FALSE
